@@ -762,33 +762,48 @@ func allPool() []int { return []int{0, 1, 2, 3, 4, 5, 6, 7} }
 
 // main-stream alphabet: everything except the known routes (GetOrLoadInterface /
 // LoadPkg through a TempVM for a name the class path has a file for)
-func alphabet(nt int, ns []int, lar []int, pf []int) []op {
-	var a []op
-	for v := -1; v < nt; v++ {
+type alphaSpec struct {
+	nt     int   // TempVM slots
+	add    []int // names for AddClass/AddInterface/AddFunc
+	lar    []int // files for LoadAndRun
+	pf     []int // files for ParseFile
+	golc   []int // names for GetOrLoadClass
+	lookup []int // names for GetOrLoadInterface / LoadPkg (known routes are left out)
+}
+
+func (a alphaSpec) ops() []op {
+	var out []op
+	for v := -1; v < a.nt; v++ {
 		for _, k := range kinds {
-			for _, n := range ns {
-				a = append(a, op{K: "add", V: v, Kd: k, N: n})
+			for _, n := range a.add {
+				out = append(out, op{K: "add", V: v, Kd: k, N: n})
 			}
 		}
-		for _, f := range lar {
-			a = append(a, op{K: "lar", V: v, F: f})
+		for _, f := range a.lar {
+			out = append(out, op{K: "lar", V: v, F: f})
 		}
-		for _, f := range pf {
-			a = append(a, op{K: "pf", V: v, F: f})
+		for _, f := range a.pf {
+			out = append(out, op{K: "pf", V: v, F: f})
 		}
-		for _, n := range ns {
-			a = append(a, op{K: "golc", V: v, N: n})
+		for _, n := range a.golc {
+			out = append(out, op{K: "golc", V: v, N: n})
+		}
+		for _, n := range a.lookup {
 			for _, k := range []string{"goli", "pkg"} {
 				if o := (op{K: k, V: v, N: n}); !o.knownRoute() {
-					a = append(a, o)
+					out = append(out, o)
 				}
 			}
 		}
 		if v >= 0 {
-			a = append(a, op{K: "dis", V: v})
+			out = append(out, op{K: "dis", V: v})
 		}
 	}
-	return a
+	return out
+}
+
+func alphabet(nt int, ns []int, lar []int, pf []int) []op {
+	return alphaSpec{nt: nt, add: ns, lar: lar, pf: pf, golc: ns, lookup: ns}.ops()
 }
 
 // the known routes only
@@ -903,6 +918,21 @@ func witnessPkg() caseT {
 	return caseT{Stream: "known", NT: 2, Pool: allPool(), Ops: []op{{K: "pkg", V: 0, N: 4}}}
 }
 
+// starvation: the file cache is shared by design while definitions are private, so a
+// class file autoloaded through one TempVM can no longer be autoloaded through another
+// (Lean: C12_shared_file_cache_starves_autoload).
+func (r *runner) starvation() {
+	alone := caseT{Stream: "known", NT: 2, Pool: allPool(), Ops: []op{{K: "lar", V: 1, F: 9}, {K: "golc", V: 1, N: 0}}}
+	after := caseT{Stream: "known", NT: 2, Pool: allPool(), Ops: []op{{K: "lar", V: 0, F: 0}, {K: "lar", V: 1, F: 9}, {K: "golc", V: 1, N: 0}}}
+	oa, _ := runImpl(r.d, alone)
+	ob, _ := runImpl(r.d, after)
+	ra, rb := oa[len(oa)-1].res, ob[len(ob)-1].res
+	if strings.HasPrefix(ra, "ok:f") && rb != ra {
+		r.c.Violation("starve:GetOrLoadClass", fmt.Sprintf("GetOrLoadClass(%s) on TempVM 1 answers %s on a fresh base but %s after TempVM 0 loaded the class file (shared file cache, private definitions)", names[0], ra, rb), map[string]any{"stream": "starve"})
+	}
+	r.runBatch([]caseT{alone, after})
+}
+
 func (r *runner) knownStream() {
 	r.knownAsModelled = true
 	for _, wc := range []struct {
@@ -925,6 +955,7 @@ func (r *runner) knownStream() {
 	}
 	if r.shard == 0 {
 		r.runBatch([]caseT{witnessGoli(), witnessPkg()})
+		r.starvation()
 	}
 	alpha := append(alphabet(4, allPool(), []int{0, 1, 2, 3, 4, 5, 6, 7, 8, 9}, []int{0, 1, 5, 6, 8}), knownAlphabet(4, allPool())...)
 	for i := 0; i < r.c.N(3000, 60000); i++ {
@@ -1141,6 +1172,10 @@ func runShard(c *vh.Ctx, shard, nshards int) {
 			cs.Stream = "main"
 		}
 		r.knownAsModelled = true
+		if cs.Stream == "starve" {
+			r.starvation()
+			return
+		}
 		r.runBatch([]caseT{cs})
 		return
 	}
@@ -1149,9 +1184,9 @@ func runShard(c *vh.Ctx, shard, nshards int) {
 	// ---- exhaustive part (base + 2 TempVMs)
 	exPool := []int{0, 1, 2, 3, 4}
 	a3 := alphabet(2, []int{0, 1, 2}, []int{0, 5, 6}, []int{0, 5})
-	a4 := alphabet(2, []int{0, 1}, []int{0, 5}, []int{5})
+	a4 := alphaSpec{nt: 2, add: []int{0, 1}, lar: []int{5}, pf: []int{5}, golc: []int{0}}.ops()
 	if c.Thorough() {
-		a4 = alphabet(2, []int{0, 1}, []int{0, 5, 6}, []int{0, 5})
+		a4 = a3
 	}
 	n3 := r.exhaustive(a3, 3, 2, exPool)
 	n4 := r.exhaustive(a4, 4, 2, exPool)
